@@ -140,6 +140,20 @@ def run(ctx):
                     q = rng.random()
                     h.emit([18, s, [1, rng.choice(blocks)] if q < 0.5 else ([0, rng.choice([0, 0, 1, 77])] if q < 0.8 else [])])
             ctx.count("steps")
+            if rng.random() < 0.1:
+                # a copy of the world (deep copy / pickle round trip) answers both lookups from ITS symbols and blocks
+                how = rng.choice(["deepcopy", "pickle"])
+                w2 = world.copy_world(h.w, how) or world.copy_world(h.w, "deepcopy")
+                if w2 is not None:
+                    ctx.count("copies_queried:" + how)
+                    qs = [[41, m, nm] for m in h.by_kind["Module"] for nm in range(6)] + \
+                         [[42, b] for b in h.by_kind["CodeBlock"] + h.by_kind["DataBlock"] + h.by_kind["ProxyBlock"]]
+                    for q in qs:
+                        badc = world.oracle_symbols(w2, q, w2.run(q))
+                        if badc:
+                            ctx.add("oracle", "symbol-lookup:copy:item%d" % q[0], "lookup %s on a %s of the world: %s" % (q, how, badc[0]),
+                                    {"items": h.items, "copy": how, "query": q, "problems": badc})
+                            break
             res = observe(ctx, h)
             if res:
                 it, bad = res
